@@ -95,7 +95,9 @@ def run(ctx):
     def one(j):
         n, mod, trig, cmd = j
         cmd = [str(c) for c in cmd]
-        r = ctx.run(cmd, timeout=3600 if thorough else 600, stall_s=120, tag='o%d' % n)
+        r = ctx.run(cmd, timeout=3600 if thorough else 600, stall_s=300, tag='o%d' % n)
+        if r.stalled or r.timed_out:      # the box is shared: one more try before calling it inconclusive
+            r = ctx.run(cmd, timeout=3600 if thorough else 600, stall_s=300, tag='o%dr' % n)
         return j, r
 
     res = ctx.pmap(one, jobs, jobs=4)
